@@ -9,7 +9,9 @@ CFG = {
     "rule": "route tables from the router grammar (conflict-free stream; tables that registration refuses are C02's "
             "subject and skipped), a third of the endpoints unpublished, response types with run-time schemas "
             "(dynamic-schema device) full of shared, nested and recursive $refs, half of them referenceable; "
-            "registered in one order and in a shuffled or reversed order. For every version of a 7-chain the "
+            "registered in one order — with documents for every version generated and thrown away BETWEEN the "
+            "registrations (a history: what is generated afterwards must still describe the whole table) — and in a "
+            "shuffled or reversed order. For every version of a 7-chain the "
             "document is written (twice, and for the permuted registration) and read back: (path, method, "
             "operationId) of every operation, every $ref string, every components key, the names of the top-level tag "
             "array in order and every operation's tag array, byte equality of the three writes (three quarters of the "
